@@ -947,4 +947,3 @@ func TestC38(t *testing.T) {
 	}
 	r.Finish(10)
 }
-
